@@ -11,7 +11,7 @@ pub static DEF: PropDef = PropDef {
     id: "C12",
     level: "exploration",
     rule: "cases: files F from the container generator and arbitrary bytes x output capacity in {0, 1, need-1, need, \
-need+1, bound, bound+k} for WrapperCompressZip and {0, 1, |F|-1, |F|, |F|+1, |F|+k} for WrapperDecompressZip (need = size \
+need+1, bound, bound+k} for WrapperCompressZip (plus one 96 MiB file, four sizes up to 127 MiB in the thorough tier, whose expanded form lies in the upper half of the 128 MiB limit) and {0, 1, |F|-1, |F|, |F|+1, |F|+k} for WrapperDecompressZip (need = size \
 produced with an ample buffer, bound = ZSTD_compressBound(|expanded|)); also arbitrary bytes as decompress input. Oracle: \
 output buffers are carved out of a larger allocation with 4 KiB guard bands of a known pattern on both sides and \
 *result_size pre-set to a sentinel; after each call the guards are intact, the status is 0, -1 or -2, status 0 implies \
@@ -20,7 +20,7 @@ decompress: they equal F); decompress: capacity < |F| => negative, capacity >= |
 An unwind out of the extern \"C\" function aborts the worker process and is reported by the driver. \
 Non-trivial = F with at least one expanded stream; distinct = hash of F.",
     assumptions: &[
-        "null / misaligned / overlapping pointers and the real 128 MiB bound are out of reach",
+        "null / misaligned / overlapping pointers are out of reach; the 128 MiB bound is probed from below only (up to 127 MiB)",
         "zstd may refuse exact-fit output buffers, so success is only demanded from ZSTD_compressBound upwards",
     ],
     worker,
@@ -277,7 +277,41 @@ fn eval_dna(dna_bytes: &[u8], ctx: &mut Ctx) -> Result<(), (Failure, Value)> {
     r.map_err(|f| (f, doc))
 }
 
+/// files whose expanded form lies in the upper half of the 128 MiB limit the decompress wrapper
+/// allows (a few MiB of incompressible bytes followed by zeros, no DEFLATE content)
+fn big_file(total_mib: usize, noise_kib: usize, seed: u64) -> Vec<u8> {
+    let mut m = crate::dna::Mix::new(seed);
+    let mut v: Vec<u8> = Vec::with_capacity(total_mib << 20);
+    for _ in 0..(noise_kib << 10) {
+        v.push(crate::gen_file::safe_junk_byte(&mut m));
+    }
+    v.resize(total_mib << 20, 0);
+    v
+}
+
+fn big_probes(ctx: &mut Ctx) {
+    let sizes: &[(usize, usize)] = match ctx.cfg.tier {
+        Tier::Quick => &[(96, 2560)],
+        Tier::Thorough => &[(66, 300), (96, 2560), (120, 5000), (127, 64)],
+    };
+    for (i, &(mib, noise)) in sizes.iter().enumerate() {
+        if (i as u32 + 1) % ctx.cfg.nshards != ctx.cfg.shard {
+            continue;
+        }
+        let f = big_file(mib, noise, 0xB16 + i as u64);
+        let doc = json!({"kind":"c12-big","mib":mib,"noise_kib":noise,"seed":0xB16 + i as u64});
+        ctx.set_inflight(&doc);
+        ctx.class("big-file:expanded-form-in-64..128MiB");
+        if let Err(fl) = check(&f, 7, ctx) {
+            if !ctx.is_known(&fl) {
+                ctx.record_failure(&fl, &doc);
+            }
+        }
+    }
+}
+
 fn worker(ctx: &mut Ctx) {
+    big_probes(ctx);
     let cases = match ctx.cfg.tier {
         Tier::Quick => 9_000u64,
         Tier::Thorough => 150_000u64,
@@ -302,6 +336,14 @@ fn replay(doc: &Value, ctx: &mut Ctx) -> Result<(), Failure> {
     let data = doc_bytes(doc, "hex").ok_or_else(|| {
         Failure::new("C12", "harness", "bad-replay-doc", "replay document has no hex field".into())
     })?;
+    if doc.get("kind").and_then(|k| k.as_str()) == Some("c12-big") {
+        let f = big_file(
+            doc["mib"].as_u64().unwrap_or(96) as usize,
+            doc["noise_kib"].as_u64().unwrap_or(2560) as usize,
+            doc["seed"].as_u64().unwrap_or(0xB16),
+        );
+        return check(&f, 7, ctx);
+    }
     if doc.get("kind").and_then(|k| k.as_str()) == Some("c12-garbage") {
         let cap = doc.get("cap").and_then(|k| k.as_u64()).unwrap_or(100) as usize;
         check_garbage(&data, cap, ctx)
